@@ -32,6 +32,10 @@ inductive Cause where
   | none                        -- Cause() == nil
   deriving Repr, DecidableEq, Inhabited
 
+/-- the cause of the error `RenderFile` returns when includes are nested deeper than
+    `maxIncludeDepth` (`render/context.go`): a plain `fmt.Errorf` error -/
+@[reducible] def Cause.includeDepth : Cause := .other "includeDepth"
+
 /-- Panic-aware result. `unmodelled` marks the explicit boundary of the model. -/
 inductive Res (ε : Type) (α : Type) where
   | ok (a : α)
